@@ -99,6 +99,7 @@ type ObResult struct {
 	Queries int      `json:"queries"`
 	Solver  string   `json:"solver,omitempty"`
 	Millis  int64    `json:"ms"`
+	MaxMs   int64    `json:"slowest_query_ms"`
 	Src     string   `json:"clause,omitempty"`
 	Detail  string   `json:"detail,omitempty"`
 	bad     *Query
@@ -109,6 +110,9 @@ func summarize(o *Obligation) *ObResult {
 	solvers := map[string]bool{}
 	for _, q := range o.Queries {
 		r.Millis += q.Millis
+		if q.Millis > r.MaxMs {
+			r.MaxMs = q.Millis
+		}
 		if q.Solver != "" {
 			solvers[q.Solver] = true
 		}
